@@ -58,10 +58,10 @@ pub fn run(args: &Args) -> i32 {
             f1_open,
         };
         let depth = std::env::var("VERIF_DEPTH").ok().and_then(|s| s.parse().ok()).unwrap_or(args.tier.pick(6, 8));
-        let st = crate::c01::run_cfg(args, &mut rep, &mut pool, &cfg, depth, Duration::from_secs(args.tier.pick(35, 10 * 60)), args.tier.pick(500_000, 20_000_000));
+        let st = crate::c01::run_cfg(args, &mut rep, &mut pool, &cfg, depth, Duration::from_secs(args.tier.pick(35, 8 * 60)), args.tier.pick(500_000, 20_000_000));
         // cross-check of the state merge: the same alphabet without de-duplication at a smaller depth
         let nd_depth = args.tier.pick(4, 5);
-        let nd = crate::c01::run_cfg_dedup(args, &mut rep, &mut pool, &cfg, nd_depth, Duration::from_secs(args.tier.pick(20, 5 * 60)), args.tier.pick(300_000, 10_000_000), false);
+        let nd = crate::c01::run_cfg_dedup(args, &mut rep, &mut pool, &cfg, nd_depth, Duration::from_secs(args.tier.pick(20, 4 * 60)), args.tier.pick(300_000, 10_000_000), false);
         rep.cov("nodedup_depth_completed", nd.depth_completed as u64);
         rep.cov("nodedup_histories", nd.transitions);
         rep.cov("nodedup_capped", nd.capped);
@@ -75,7 +75,7 @@ pub fn run(args: &Args) -> i32 {
     let mut capped = false;
     for sc in s_scenarios() {
         let mut st = Stats::default();
-        let cfg = ExploreCfg { bound, deadline: Instant::now() + Duration::from_secs(args.tier.pick(8, 180)), max_schedules: u64::MAX, stop_on_violation: true };
+        let cfg = ExploreCfg { bound, deadline: Instant::now() + Duration::from_secs(args.tier.pick(8, 90)), max_schedules: u64::MAX, stop_on_violation: true };
         explore(&mut pool, &serde_json::to_string(&sc).unwrap(), &cfg, &mut st);
         sched.0 += st.schedules;
         sched.1 += st.tree_nodes;
